@@ -262,9 +262,10 @@ func runCodTab(c *core.Ctx) {
 		tags[strings.Split(t, ",")[0]] = true
 	}
 	looked := map[string]bool{}
-	an.Instrs(edec, func(in ssa.Instruction) {
-		if lk, ok := in.(*ssa.Lookup); ok {
-			if s, ok := an.ConstStr(lk.Index); ok {
+	// (a member may be fetched by a private helper that is handed its name)
+	an.Region(edec, nil, func(o an.Occ) {
+		if lk, ok := o.In.(*ssa.Lookup); ok {
+			if s, ok := an.ConstStr(an.Unwrap(o.Resolve(lk.Index))); ok {
 				looked[s] = true
 			}
 		}
